@@ -52,8 +52,13 @@ func c15Scenarios(tier string) []Spec {
 			threads = 3
 		}
 		bound, rb := b, 1
-		if tier != "thorough" && (threads == 3 || k.name == "merges") {
-			bound, rb = 0, 0 // the free switches alone (a polling thread is never "running"): 3-7k executions each
+		if threads == 3 || k.name == "merges" {
+			// the free switches alone (a polling thread is never "running") are 1-7k executions each; one preemption
+			// on top of them in the thorough tier
+			bound, rb = 0, 0
+			if tier == "thorough" {
+				bound, rb = 1, 1
+			}
 		}
 		specs = append(specs, Spec{Bound: bound, RaceBound: rb, Shards: 2, Sc: sched.Scenario{Name: "C15/iterator(channel of 1)|consumer " + k.name, Make: func() *sched.Instance {
 			w := newW13Sized(threads, true) // A = a1; B = b1
